@@ -54,3 +54,7 @@ package transport
 //@   before call:Close#1 assert !isnil(item.e) && held(h.Mutex)
 //@   before call:Close#2 assert isnil(at("call:Lock#1", item.e)) && h.closed && held(h.Mutex)
 //@   before call:append#1 assert item.e == mangos.ErrClosed || !h.closed || item.c == nil
+//@
+//@ func (*conn).SetOption
+//@   requires n == mangos.OptionMaxRecvSize ==> is_int(v)
+//@   ensures n == mangos.OptionMaxRecvSize ==> p.maxrx == int_of(v)
